@@ -661,7 +661,15 @@ func extractMinimalRegions(t *trie.Trie[bit256.Key, peer.ID], path bitstr.Key, s
 		return append(extractMinimalRegions(t.Branch(b), path+bitstr.Key(byte('0'+b)), size, order),
 			extractMinimalRegions(t.Branch(1-b), path+bitstr.Key(byte('1'-b)), size, order)...)
 	}
-	return []Region{{Prefix: path, Peers: t}}
+	if len(path) == 0 {
+		return []Region{{Prefix: path, Peers: t}}
+	}
+	// t hangs at depth len(path) of the peers trie, but the consumers of a
+	// Region (AllocateToKClosest alongside the Keys trie) walk Peers from depth
+	// 0. Give the region a trie of its own, rooted at depth 0.
+	peers := trie.New[bit256.Key, peer.ID]()
+	peers.AddMany(AllEntries(t, order)...)
+	return []Region{{Prefix: path, Peers: peers}}
 }
 
 // AssignKeysToRegions assigns the provided keys to the regions based on their
